@@ -5,4 +5,5 @@ var Registry = map[string]func([]int64){
 	"HarnessNotifyStep": func(a []int64) { HarnessNotifyStep(int(a[0])) },
 	"HarnessRegister":   func(a []int64) { HarnessRegister(int(a[0])) },
 	"HarnessReport":     func(a []int64) { HarnessReport(int(a[0])) },
+	"HarnessHistory":    func(a []int64) { HarnessHistory(int(a[0]), int(a[1])) },
 }
